@@ -1,5 +1,5 @@
 #!/usr/bin/env python3
-# usage: seed_prompts.py <round letter>   -> writes /tmp/seed/prompt_<Cxx><letter>.txt for every claimed property and
+# usage: seed_prompts.py <round letter> [Cxx ...]   -> writes /tmp/seed/prompt_<Cxx><letter>.txt for every claimed property and
 # creates the scratch worktrees /tmp/seed/<Cxx><letter>.  A sub-agent gets only its prompt file: the property text,
 # its worktree, and the names of functions earlier seeds already changed (so that it looks elsewhere).
 import json,glob,os,re,sys,subprocess
@@ -38,7 +38,9 @@ for d in sorted(glob.glob('/verif/seeded/*/')):
     patch=open(d+'patch.diff').read()
     touched.setdefault(prop,set()).update(re.findall(r'@@.*@@ func (?:\([^)]*\) )?(\w+)',patch))
 os.makedirs('/tmp/seed',exist_ok=True)
+only=set(sys.argv[2:])
 for pid in sorted(set(claimed)):
+    if only and pid not in only: continue
     d=props[pid]; name=pid+rnd; wt='/tmp/seed/'+name
     av=', '.join(sorted(touched.get(pid,[])))
     avoid=('Other testers already covered changes to these functions: %s; put your change in a different function. '%av) if av else ''
